@@ -1250,3 +1250,16 @@ Proof.
   change (@nil call) with (map (with_topthresh f) (@nil call)) at 1. rewrite effective_map_top.
   rewrite problems_map_top. reflexivity.
 Qed.
+
+(* ---- a cross-reference inside a field body that documents an attribute ---------------------------------------- *)
+Lemma split_field_xref_line : forall cds ln m z, cds <> 0 ->
+  report_line sec_xref (split_field_source_lineno 0 cds) ln z m = Num (cds + z).
+Proof.
+  intros cds ln m z H. unfold split_field_source_lineno. cbn [Z.eqb].
+  apply (report_line_docstring_sections sec_xref cds ln z m eq_refl H).
+Qed.
+
+Lemma split_field_xref_line_refuted :
+  ~ (forall own cds ln m z, cds <> 0 -> 0 <= own ->
+       report_line sec_xref (split_field_source_lineno own cds) ln z m = Num (cds + z)).
+Proof. intros H. specialize (H 28 19 0 false 4 ltac:(lia) ltac:(lia)). vm_compute in H. discriminate. Qed.
